@@ -36,6 +36,16 @@ Theorem C14_foreach_first_error : forall (t : e) (f : nat -> Z -> option Z),
 Proof. exact foreach_first_error. Qed.
 Print Assumptions C14_foreach_first_error.
 
+(* "stops with the first error": when the model's ForEach returns an error its iterator is the one the failing callback
+   was called on ([run_foreach_st] is [run_foreach] that also answers the iterator; the harness reads Value() of the real
+   iterator at that point and Check/C14.v compares) *)
+Theorem C14_foreach_stops_at_error : forall (t : e) (f : nat -> Z -> option Z) n vs err j,
+  run_foreach_st n f t = Some (vs, Some err, j) ->
+  run_foreach n f t = Some (vs, Some err) /\
+  vs <> [] /\ value j = last vs 0 /\ f (length vs - 1)%nat (value j) = Some err.
+Proof. exact foreach_stops_at_error. Qed.
+Print Assumptions C14_foreach_stops_at_error.
+
 (* ... where [upto] is: a prefix of the list in order; no error before the last element seen; the returned
    error is the one of the last call; without error the whole list was seen *)
 Theorem C14_upto_spec : forall f l k vs o, upto f k l = (vs, o) ->
